@@ -28,6 +28,8 @@ POOLS = {
     'neg':   lambda n: -1 - n,
     'mixed': lambda n: [n, 'm%d' % n, (n,), n + 0.25, ('t', n), 's p%d' % n][n % 6],
     'intstr': lambda n: n if n % 2 == 0 else 'v%d' % n,
+    'blank': lambda n: ['north  gate %d', ' [%d]  ', '%d ,  x', '{ %d :  y }'][n % 4] % n,      # runs of blanks, brackets
+    'twin':  lambda n: (n if n % 2 == 0 else str(n - 1)),      # u0 = 0 and u1 = '0': different names with one str()
     'falsy': lambda n: (n + 1 if n < 10 else (['', 0, ()][n - 10] if n < 13 else n)),   # u10, u11, u12 are falsy names
 }
 POOL_NAMES = ['int', 'str', 'tuple', 'float', 'neg', 'mixed', 'falsy']
@@ -94,7 +96,8 @@ def _hashable(o):
 # ---------------------------------------------------------------------------------------------------------
 # attribute dict encoding: model key k <-> 'k<k>', model value v <-> v (int) or VALS[v-1000]
 # ---------------------------------------------------------------------------------------------------------
-VALS = ['', 'héllo ✓', [1, [2, 3]], {'n': None}, 1.5, True, None, [], {}, 'x' * 40, {'a': [1, {'b': 2}]}, [0.5, 'z']]
+VALS = ['', 'héllo ✓', [1, [2, 3]], {'n': None}, 1.5, True, None, [], {}, 'x' * 40, {'a': [1, {'b': 2}]}, [0.5, 'z'],
+        'interval [0,   1]  and  {a:  b}', ['two  blanks', ' [ ', '  '], {'k  k': ' ]  [ '}]
 
 
 def val_obj(v):
@@ -189,6 +192,10 @@ def fmt_mat(M):
             row.append('1' if v == 1 else ('0' if v == 0 else '?'))
         rows.append(''.join(row))
     return '%dx%d:%s' % (r, c, '|'.join(rows))
+
+
+class OpTimeout(BaseException):
+    """one library call ran for more than Executor.OP_TIMEOUT seconds"""
 
 
 class Rej(Exception):
@@ -299,8 +306,25 @@ class Executor:
         return '[' + ','.join(out) + ']'
 
     # -- execution ---------------------------------------------------------------------------------------
+    OP_TIMEOUT = 30      # seconds for one call of the library (the slowest on the unchanged tree takes well under 1 s)
+
     def run(self, line):
         self.effective = None       # the line to hand to the model when it differs from the script's (see subdiv)
+        import signal, threading
+        use_alarm = threading.current_thread() is threading.main_thread()
+        if use_alarm:
+            def _expired(signum, frame):
+                raise OpTimeout()
+            old = signal.signal(signal.SIGALRM, _expired)
+            signal.setitimer(signal.ITIMER_REAL, self.OP_TIMEOUT)
+        try:
+            return self._run1(line)
+        finally:
+            if use_alarm:
+                signal.setitimer(signal.ITIMER_REAL, 0)
+                signal.signal(signal.SIGALRM, old)
+
+    def _run1(self, line):
         try:
             return self._run(line)
         except (KeyError, ValueError):
@@ -309,6 +333,8 @@ class Executor:
             return 'rej'
         except NoObject as e:
             return 'err no-object ' + str(e)
+        except OpTimeout:
+            return 'crash:Timeout'
         except Exception as e:      # anything else is neither KeyError nor ValueError
             return 'crash:' + type(e).__name__
 
@@ -404,7 +430,11 @@ class Executor:
                 e = SimplicialComplex.simplexWithBasis(c, [self.name(x) for x in pr.split('+')])
                 es.append(self.T(e) if e is not None else 'u999')
             self.effective = 'grow %s [%s]' % (h, ','.join(es))
-            c.growFlagComplex(self.names('[' + ','.join(es) + ']')); return 'ok -'
+            ns = self.names('[' + ','.join(es) + ']')
+            self.growcalls = getattr(self, 'growcalls', 0) + 1
+            # any iterable of simplices will do: every third call hands over a one-shot iterator, another third a tuple
+            k = (self.growcalls + len(ns)) % 3
+            c.growFlagComplex(iter(ns) if k == 0 else (tuple(ns) if k == 1 else ns)); return 'ok -'
         if op in ('ksimplex', 'kvoid', 'kskel', 'ring'):
             tgt = None if t[2] == 'new' else O[h]
             k = int(t[3])
@@ -416,7 +446,9 @@ class Executor:
                 r = k_skeleton(k, c=tgt)
             else:
                 r = ring(k, c=tgt)
-            self.put(h, r); return 'ok -'
+            if tgt is None:
+                self.put(h, r)          # (with a target the handle keeps naming the complex that was handed over)
+            return 'ok -' if (tgt is None or r is tgt) else 'ok other-object'
         if op == 'lattice':
             self.put(h, TriangularLattice(int(t[2]), int(t[3]))); return 'ok -'
         if op == 'setidx':
